@@ -254,6 +254,20 @@ pub struct Updater {
     beatree_read_tx: BeatreeReadTx,
 }
 
+impl Drop for Updater {
+    fn drop(&mut self) {
+        // If the updater is dropped without `update_and_prove` (a session dropped without being
+        // finished), the warm-up worker is still running and holds a clone of the store and a
+        // read transaction. Tell it to stop and wait for it, so that dropping the session
+        // releases everything it held. After `update_and_prove` the output has already been
+        // received and neither call blocks.
+        if let Some(warm_up) = self.warm_up.take() {
+            let _ = warm_up.finish_tx.send(());
+            let _ = warm_up.output_rx.recv();
+        }
+    }
+}
+
 impl Updater {
     /// Warm up the given key-path by pre-fetching the relevant pages.
     pub fn warm_up(&self, key_path: KeyPath) {
